@@ -29,6 +29,8 @@ BOUNDS = {
     'thorough': 'quick with all placements at n=3 + n=4 DAG(+1 edge) with 4 kind assignments (comb, register first, register last, all registers), flat + one '
                 'hierarchy split + one late addition; n=5: all 1024 DAGs comb-only x 120 orders, and the first 128 DAGs + one back edge/self-loop',
 }
+for k in ('quick', 'thorough'):
+    BOUNDS[k] += '; also runs cancelled by stop() or aborted by an exception followed by new inputs, a leaf with two input ports of one name, every late-addition point for n=3'
 
 
 class CombG(Logic):
